@@ -9,6 +9,6 @@ for id in C17 C18 C03 C05 C08 C13 C16 C15 C11 C10 C02 C14 C01 C04 C06 C07 C09 C1
   s=$(date +%s)
   out=$(./check $id --tier thorough 2>&1); rc=$?
   echo "$id rc=$rc $(( $(date +%s) - s ))s $(echo "$out" | grep -E 'tier=' | tail -1 | cut -c1-160)"
-  echo "$out" | grep -E "^VIOLATION|HARNESS" | head -5
+  echo "$out" | grep -E -A 14 "HARNESS" | head -20; echo "$out" | grep -E "^VIOLATION" | head -5
   echo "$out" | grep -A1 "^VIOLATION" | grep -v "^VIOLATION\|^--" | head -3 | cut -c1-400
 done
